@@ -1,3 +1,3 @@
 From Coq Require Import Extraction ExtrOcamlBasic ZArith.
-From ScV Require Import Base.CInt Gen.Consts Gen.Search Gen.Macros MPI.Prog C03.ReduceModel.
-Extraction "c03_model.ml" reduce_prog sym_reduce_result w_sc_log2_32 c_SC_REDUCE_ALLTOALL_LEVEL c_SC_TAG_REDUCE.
+From ScV Require Import Base.CInt Gen.Consts Gen.Search Gen.Macros MPI.Prog C03.ReduceModel C03.ReduceHist.
+Extraction "c03_model.ml" reduce_prog hist_prog hist_calls sym_reduce_result w_sc_log2_32 c_SC_REDUCE_ALLTOALL_LEVEL c_SC_TAG_REDUCE.
